@@ -30,6 +30,7 @@ def r_C01visitors(root):
             except (pyeval.Unsupported, pyeval.Raised): pass
     fns.update({f.name: f for f in ct.body if isinstance(f, ast.FunctionDef)})
     M1, MO, MZ, MP = (consts.get(k) for k in ("MULT_ONE", "MULT_OPTIONAL", "MULT_ZEROORMORE", "MULT_ONEORMORE"))
+    AUTOKWD = [False]           # the option the sample meta-model is built with (the choice / predicate cases run with it off and on)
     def errs(cls_): return pyeval.PyFn(lambda *a, **k: {".cls": cls_, ".args": a})
     def method(name):
         f = find(t, "TextXVisitor." + name); return f, [a.arg for a in f.args.args]
@@ -38,7 +39,7 @@ def r_C01visitors(root):
         def new_attr(clazz, name, cls=None, mult=None, cont=True, ref=False, bool_assignment=False, position=0):
             a = HS({".kind": "metaattr", ".name": name, ".cls": cls, ".mult": M1 if mult is None else mult, ".cont": cont, ".ref": ref, ".bool_assignment": bool_assignment, ".position": position, ".scope_provider": None, ".match_rule_name": None})
             clazz["._tx_attrs"][name] = a; return a
-        mm = HS({".kind": "metamodel", ".file_name": "g.tx", "._new_cls_attr": pyeval.PyFn(new_attr)})
+        mm = HS({".kind": "metamodel", ".file_name": "g.tx", "._new_cls_attr": pyeval.PyFn(new_attr), ".autokwd": AUTOKWD[0], ".ignore_case": False, ".skipws": True, ".ws": " \t", ".debug": False, ".memoization": False})
         v = HS({".kind": "visitor", ".debug": False, ".metamodel": mm, "._current_cls": cls, ".grammar_parser": {".pos_to_linecol": pyeval.PyFn(lambda p_: (1, p_)), ".debug": False}, ".dprint": pyeval.PyFn(lambda *a: None)})
         return v, cls
     def call(name, v, node, children):
@@ -104,28 +105,33 @@ def r_C01visitors(root):
     v, _c = new_visitor()
     r = call("visit_repeatable_expr", v, node, [E("StrMatch", to_match="x"), operator(v, "?", E("StrMatch", to_match=","))])
     rep("C01.b", "visit_repeatable_expr", "e?[',']", r == ("raise", "TextXSyntaxError"), "e?[',']  (modifiers on the optional operator) %s; documented TextXSyntaxError" % desc(r), props_=("C01", "C23"))
+    def sm(txt): return E("StrMatch", to_match=txt, ignore_case=False, str_repr=None, compile=pyeval.PyFn(lambda: None))
+    def kw(txt): return E("RegExMatch", to_match=txt, ignore_case=False, str_repr=txt, regex=None, to_match_regex=txt + "\\b", compile=pyeval.PyFn(lambda: None))          # a keyword-like literal as autokwd compiles it
     # ---------------------------------------------------------------- syntactic predicates
-    for tok, kind in (("!", "Not"), ("&", "And")):
-        v, _c = new_visitor(); e = E("StrMatch", to_match="x")
+    for tok, kind, e, AUTOKWD[0] in (("!", "Not", sm("x"), False), ("&", "And", sm("x"), False), ("!", "Not", kw("end"), True), ("&", "And", kw("to"), True), ("!", "Not", sm("+"), True)):
+        v, _c = new_visitor()
         r = call("visit_expression", v, node, [tok, e])
-        rep("C01.a", "visit_expression", "%se" % tok, r[0] == "ret" and isinstance(r[1], dict) and r[1].get(".kind") == kind and r[1].get(".nodes") == [e], "the predicate  %se  becomes %s; documented %s over [e]" % (tok, desc(r), kind))
-    v, _c = new_visitor(); e = E("StrMatch", to_match="x")
+        rep("C01.a", "visit_expression", "%s%s%s" % (tok, e.get(".str_repr") or e.get(".to_match"), " (autokwd on)" if AUTOKWD[0] else ""), r[0] == "ret" and isinstance(r[1], dict) and r[1].get(".kind") == kind and r[1].get(".nodes") == [e], "the predicate  %se  becomes %s; documented %s over [e]" % (tok, desc(r), kind))
+    AUTOKWD[0] = False
+    v, _c = new_visitor(); e = sm("x")
     r = call("visit_expression", v, node, [e])
     rep("C01.a", "visit_expression", "e", r[0] == "ret" and r[1] is e, "an expression without predicate becomes %s; documented: itself" % desc(r))
     # ---------------------------------------------------------------- choices and sequences keep their members, in written order
-    def sm(txt): return E("StrMatch", to_match=txt)
     inner_seq = E("Sequence", nodes=[sm("p"), sm("q")]); inner_ch = E("OrderedChoice", nodes=[sm("u"), sm("v")])
     for meth, kind, members, what in (("visit_choice", "OrderedChoice", [sm("<"), sm("<="), sm("=")], "'<' | '<=' | '='  (an alternative that is a prefix of a later one comes first)"),
-                                      ("visit_choice", "OrderedChoice", [sm("else"), E("RegExMatch", to_match="\\w+"), sm("e")], "'else' | /\\w+/ | 'e'"),
+                                      ("visit_choice", "OrderedChoice", [sm("else"), E("RegExMatch", to_match="\\w+", to_match_regex="\\w+", ignore_case=False, str_repr=None, compile=pyeval.PyFn(lambda: None)), sm("e")], "'else' | /\\w+/ | 'e'"),
                                       ("visit_choice", "OrderedChoice", [inner_seq, sm("x")], "(p q) | x"),
                                       ("visit_sequence", "Sequence", [sm("a"), inner_seq, sm("b")], "a (p q) b  (a bracketed sequence stays one member)"),
                                       ("visit_sequence", "Sequence", [sm("bb"), sm("a"), sm("bb")], "'bb' 'a' 'bb'"),
-                                      ("visit_sequence", "Sequence", [inner_ch, sm("x")], "(u | v) x")):
-        v, _c = new_visitor(); before = list(members); inner_before = [list(m_.get(".nodes", [])) for m_ in members]
-        r = call(meth, v, node, list(members))
-        got = r[1].get(".nodes") if r[0] == "ret" and isinstance(r[1], dict) else None
-        ok = r[0] == "ret" and isinstance(r[1], dict) and r[1].get(".kind") == kind and isinstance(got, list) and len(got) == len(before) and all(x is y for x, y in zip(got, before)) and [list(m_.get(".nodes", [])) for m_ in members] == inner_before
-        rep("C01.a", meth, what, ok, "%s  becomes %s; documented: %s over exactly these members in the written order (PEG: the first alternative that matches wins; a bracketed group is one member)" % (what, desc(r) if got is None else "%s(%s)" % (r[1].get(".kind"), ", ".join(str(x.get(".to_match", x.get(".kind"))) for x in got)), kind))
+                                      ("visit_sequence", "Sequence", [inner_ch, sm("x")], "(u | v) x"),
+                                      ("visit_choice", "OrderedChoice", [kw("public"), kw("private"), kw("protected")], "'public' | 'private' | 'protected'  (keyword-like literals)")):
+        for AUTOKWD[0] in (False, True):
+            v, _c = new_visitor(); before = list(members); inner_before = [list(m_.get(".nodes", [])) for m_ in members]
+            r = call(meth, v, node, list(members))
+            got = r[1].get(".nodes") if r[0] == "ret" and isinstance(r[1], dict) else None
+            ok = r[0] == "ret" and isinstance(r[1], dict) and r[1].get(".kind") == kind and isinstance(got, list) and len(got) == len(before) and all(x is y for x, y in zip(got, before)) and [list(m_.get(".nodes", [])) for m_ in members] == inner_before
+            rep("C01.a", meth, what + (" (autokwd on)" if AUTOKWD[0] else ""), ok, "%s  becomes %s; documented: %s over exactly these members in the written order (PEG: the first alternative that matches wins; a bracketed group is one member)" % (what, desc(r) if got is None else "%s(%s)" % (r[1].get(".kind"), ", ".join(str(x.get(".to_match", x.get(".kind"))) for x in got)), kind))
+    AUTOKWD[0] = False
     for meth in ("visit_choice", "visit_sequence"):
         v, _c = new_visitor(); e = sm("only")
         r = call(meth, v, node, [e])
